@@ -220,6 +220,36 @@ fn gen_choose_unrank(rng: &mut Rng, tier: Tier, cases: &mut Vec<Case>) {
             cases.push(c);
         }
     }
+    // histories: `choose` / `decode_u64` / the iterator are stateless, so any order of calls must give the same
+    // answers; every case runs on a fresh thread (see `execute`), so a cache - global or thread-local - starts
+    // empty and is filled in the order of the case: small n first, narrow k before wide k, decode in between
+    let hist = match tier {
+        Tier::Quick => 400,
+        Tier::Thorough => 6000,
+    };
+    for h in 0..hist {
+        let mut c = Case::new("choose-history");
+        let steps = 3 + rng.below(6);
+        let mut cap = 2 + rng.below(12);
+        for _ in 0..steps {
+            match rng.below(4) {
+                0 | 1 => {
+                    let n = rng.below(cap.min(64) + 1);
+                    c.op(format!("chk {n} {}", rng.below(n + 2)));
+                }
+                2 => {
+                    let w = rng.below(if h % 2 == 0 { 4 } else { 65 }) as usize;
+                    let total = t[64][w] as u64;
+                    c.op(format!("ur {w} {} {}", rng.next() % total, rng.next() % total));
+                }
+                _ => {
+                    c.op(format!("ch {}", rng.below(cap.min(64) + 1)));
+                }
+            }
+            cap = (cap * 2).min(80);
+        }
+        cases.push(c);
+    }
     // the iterator: complete enumeration for the small classes, a prefix for the others
     for w in 0..=64u64 {
         let total = t[64][w as usize];
@@ -490,6 +520,21 @@ fn gen_huffman(rng: &mut Rng, tier: Tier, cases: &mut Vec<Case>) {
             }
         }
     }
+    // deep trees: Fibonacci-like frequencies give a code of depth n-1 (up to 43 for 44 symbols, the sum F(46)-1
+    // still fits i32); powers of two give depth n-1 as well.  Code words longer than 32 / 64 bits only occur here.
+    let mut fib: Vec<i64> = vec![1, 1];
+    while fib.len() < 44 {
+        let k = fib.len();
+        fib.push(fib[k - 1] + fib[k - 2]);
+    }
+    for n in [20usize, 30, 31, 32, 33, 34, 35, 36, 40, 43, 44] {
+        cases.push(huffman_case(rng, "huffman-deep", &fib[..n], false));
+        cases.push(huffman_case(rng, "huffman-deep", &fib[..n], true));
+    }
+    for n in [17usize, 25, 30, 31] {
+        let pw: Vec<i64> = (0..n).map(|i| 1i64 << i.saturating_sub(1)).collect();
+        cases.push(huffman_case(rng, "huffman-deep", &pw, true));
+    }
     let m = match tier {
         Tier::Quick => 2500,
         Tier::Thorough => 60000,
@@ -664,7 +709,16 @@ fn exec_huffman(tag: &str, table: &[(u32, i32)], obs: &mut Vec<String>) {
     obs.push(format!("F {tag} {}", words.join(" ")).trim_end().to_string());
 }
 
+/// every case runs on a thread of its own: state that the library might keep per thread (a memo table, a scratch
+/// buffer) is fresh for each case and is built up in the order of the case's own operations
 fn execute(c: &Case, obs: &mut Vec<String>) {
+    let r = std::thread::scope(|s| s.spawn(|| execute_on_this_thread(c, &mut *obs)).join());
+    if let Err(p) = r {
+        std::panic::resume_unwind(p);
+    }
+}
+
+fn execute_on_this_thread(c: &Case, obs: &mut Vec<String>) {
     let mut i = 0;
     while i < c.ops.len() {
         let t: Vec<&str> = c.ops[i].split_whitespace().collect();
@@ -687,6 +741,10 @@ fn execute(c: &Case, obs: &mut Vec<String>) {
             "zz" => {
                 let us: Vec<u32> = t[1..].iter().map(|v| zigzag_encode(v.parse::<i32>().expect("i32"))).collect();
                 obs.push(format!("D zz {}", join(us.iter(), " ")));
+            }
+            "chk" => {
+                // a single binomial (histories: the order of single calls matters for a cache)
+                obs.push(format!("D chk {} {} {}", n(1), n(2), opt(|| choose(n(1), n(2)))));
             }
             "ch" => {
                 let vals: Vec<String> = (0..n(1) + 3).map(|k| opt(|| choose(n(1), k))).collect();
